@@ -253,6 +253,9 @@ func (e *Exp) String() string {
 		}
 		return litString(e.Lit)
 	case ERefSelf:
+		if e.Id == "" {
+			return "self"
+		}
 		if e.Path != "" {
 			return "self." + e.Id + "." + e.Path
 		}
